@@ -68,25 +68,24 @@ func (info ReportingMTAInfo) WriteTo(utf8 bool, w io.Writer) error {
 
 	h.Add("Reporting-MTA", "dns; "+reportingMTA)
 
+	// The fields below are optional. Received-From-MTA is whatever the client
+	// has sent in EHLO/HELO: if it cannot be represented, leave the field
+	// out, the report must be generated anyway.
 	if info.ReceivedFromMTA != "" {
 		receivedFromMTA, err := dns.SelectIDNA(utf8, info.ReceivedFromMTA)
-		if err != nil {
-			return fmt.Errorf("dsn: cannot convert Received-From-MTA to a suitable representation: %w", err)
+		if err == nil {
+			h.Add("Received-From-MTA", "dns; "+receivedFromMTA)
 		}
-
-		h.Add("Received-From-MTA", "dns; "+receivedFromMTA)
 	}
 
 	if info.XSender != "" {
 		sender, err := address.SelectIDNA(utf8, info.XSender)
-		if err != nil {
-			return fmt.Errorf("dsn: cannot convert X-Maddy-Sender to a suitable representation: %w", err)
-		}
-
-		if utf8 {
-			h.Add("X-Maddy-Sender", "utf8; "+sender)
-		} else {
-			h.Add("X-Maddy-Sender", "rfc822; "+sender)
+		if err == nil {
+			if utf8 {
+				h.Add("X-Maddy-Sender", "utf8; "+sender)
+			} else {
+				h.Add("X-Maddy-Sender", "rfc822; "+sender)
+			}
 		}
 	}
 	if info.XMessageID != "" {
@@ -167,13 +166,12 @@ func (info RecipientInfo) WriteTo(utf8 bool, w io.Writer) error {
 		h.Add("Diagnostic-Code", "X-Maddy; "+errorDesc)
 	}
 
+	// Optional field, see ReportingMTAInfo.WriteTo.
 	if info.RemoteMTA != "" {
 		remoteMTA, err := dns.SelectIDNA(utf8, info.RemoteMTA)
-		if err != nil {
-			return fmt.Errorf("dsn: cannot convert Remote-MTA to a suitable representation: %w", err)
+		if err == nil {
+			h.Add("Remote-MTA", "dns; "+remoteMTA)
 		}
-
-		h.Add("Remote-MTA", "dns; "+remoteMTA)
 	}
 
 	return textproto.WriteHeader(w, h)
